@@ -207,10 +207,9 @@ func oracleC16(op string, a []string) string {
 			return skip
 		}
 		pco := nasConvert.NewProtocolConfigurationOptions()
-		if err := pco.UnMarshal(b); err != nil {
-			return "pass"
-		}
-		// every unit must sit in the input at the position the length octets dictate
+		_ = pco.UnMarshal(b)
+		// every unit the list holds afterwards - also when an error is reported: a caller that logs or uses what was parsed so far
+		// must not see contents that are not in the input - must sit in the input at the position the length octets dictate
 		pos := 1
 		for _, u := range pco.ProtocolOrContainerList {
 			if pos+3 > len(b) || int(u.ProtocolOrContainerID) != int(b[pos])<<8|int(b[pos+1]) || u.LengthOfContents != b[pos+2] ||
